@@ -285,7 +285,10 @@ def run(ctx):
                     if p["k"] == "Expr" and p["expr"]["k"] == "Lit" and p["expr"]["lit"]["lit"] == "char":
                         atoms.add(("lit", p["expr"]["lit"]["v"]))
                     if p["k"] == "Range" and p["lo"] and p["hi"]:
-                        atoms.add(("range", p["lo"]["lit"]["v"], p["hi"]["lit"]["v"]))
+                        hi_ = p["hi"]["lit"]["v"]
+                        if not p.get("inclusive"):
+                            hi_ = chr(ord(hi_) - 1) if isinstance(hi_, str) and len(hi_) == 1 else hi_     # `'0'..'9'` stops at '8'
+                        atoms.add(("range", p["lo"]["lit"]["v"], hi_))
     for c in "0123456789.":
         ctx.ob("F-DISPLAY", "float scanner accepts %r" % c, tables.pred_accepts(frozenset(atoms), c) is True, "scanner atoms %s" % sorted(atoms))
     pi = maps.enum_parser_fn(ctx, "parse_isize")
@@ -342,6 +345,8 @@ def run(ctx):
     _lskel.rule_L_SKELETON(ctx, which=('term',), floor=10)
     import maps as _mb
     _mb.rule_M_BINFILL(ctx)
+    import tables as _t3
+    _t3.rule_T_SPACE(ctx, _t3.Tables(ctx), models=("enum",))
     ctx.undecided = ["that parsed and original values compare equal for all values (depends on C06 and on run-time data)",
                      "nesting-dependent ambiguity; name well-formedness side conditions"]
     ctx.assumptions = ["f64 Display emits only digits and '.' for finite values in [0,1] (std guarantee)",
